@@ -779,6 +779,7 @@ def run(rep, tier):
         rep.require(nge >= 2, 'C10: GetEscaped instantiations found: %d (>= 2 expected: block width and 64)' % nge)
         from . import c15
         c15.clause_f(facts, rep)   # SkipString's quote/backslash masks must not carry bits above the lane count
+        c15.clause_g(facts, rep)   # ... and the 64-byte string / bracket masks of GetStringBits and SkipContainer are the positional concatenation of their parts
         c11.clause_shift(facts, rep, {'K1': ('::avx2::',), 'K3': ('::sse::',), 'K4': ('::avx2::', '::sse::')}[cfg])
     # one raw value skipped from any alignment: start / end / no stray read, byte by byte (sv/scaneval.py; shared by C10, C11, C15, C20)
     from .. import scaneval
